@@ -195,6 +195,25 @@ class WindowMixin:
                 tame = z3.ForAll(p, z3.Implies(inw, z3.Or(fl.isnan(el), fl.isfin(el))))
                 body = z3.And(z3.Implies(anynan, fl.isnan(r)), z3.Implies(tame, z3.And(fl.isnan(r) == anynan, z3.Or(fl.isnan(r), fl.isfin(r)))))
             self.axioms.append(z3.ForAll(o + e, z3.Implies(nonempty, body), patterns=[UFk(*(o + e))]))
+        # a reduction is a function of the BOX CONTENTS: two arrays that agree on a box give the same value there
+        reg = getattr(self, "_win_registry", None)
+        if reg is None:
+            reg = self._win_registry = {}
+        fam = reg.setdefault((tag, nb, nextra, arr0.dt), [])
+        if kind is not None and nextra == 0:
+            frozen_arr = SArr(arr0.cell, arr0.dt, arr0.shape, (), arr0.name, snap=h_)
+            for (other, Ok, Ov) in fam:
+                o = [z3.Int(fresh_name("co%d" % k)) for k in range(nb)]
+                e = [z3.Int(fresh_name("ce%d" % k)) for k in range(nb)]
+                p = [z3.Int(fresh_name("cp%d" % k)) for k in range(nb)]
+                inw = z3.And(*[z3.And(p[k] >= o[k], p[k] < o[k] + e[k]) for k in range(nb)])
+                ea, eb = array_read(st, frozen_arr, p), array_read(st, other, p)
+                same = fl.same(fl.F(ea), fl.F(eb)) if arr0.dt == "f" else (ea == eb)
+                agree = z3.ForAll(p, z3.Implies(inw, same))
+                concl = z3.And(UFk(*(o + e)) == Ok(*(o + e)), UFv(*(o + e)) == Ov(*(o + e)))
+                self.axioms.append(z3.ForAll(o + e, z3.Implies(agree, concl), patterns=[UFk(*(o + e))]))
+                self.axioms.append(z3.ForAll(o + e, z3.Implies(agree, concl), patterns=[Ok(*(o + e))]))
+            fam.append((frozen_arr, UFk, UFv))
         self._uf_cache[key] = (UFk, UFv)
         return UFk, UFv
 
